@@ -28,6 +28,7 @@ peer map (and with it the event sender) or a clone of the user's service while s
 on an empty peer map in shutdown() is not dischargeable and is reported as a known finding; (7) closed world of task
 creation - every spawn in the library is the manager task or goes onto one of the three JoinSets shutdown terminates.
 (8) no library type stores a handle to the bound UDP socket and the socket is never duplicated, so the endpoint's own socket is the only thing keeping the address bound.
+(7b) the connection handler awaits the shutdown of the set its request tasks run on before it returns (dropping a JoinSet does not wait).
 """
 TRUSTED = ["tokio: JoinSet::shutdown/abort semantics, yield_now returns Pending once, mpsc/oneshot close semantics", "quinn: Endpoint::close / wait_idle / rebind"]
 NOT_DECIDED = ["latency ('within the configured bound' — only the presence of the bound is decided)", "OS socket re-bindability", "remote peers observing the disconnect",
@@ -382,6 +383,20 @@ def run(cx):
                 ob.fail("refuted", f"spawn-site/fnref/{owner_path(prog, b)}", f"{callee} used as a function value in {b.path}", b.path, b.loc(bb))
         ob.floor(n, 6, "task-creation call sites in crate anemo")
         ob.floor(len(seen), 6, "known task-creation sites re-identified")
+        # ... and being on a JoinSet means being *waited for*: the connection handler does not return before
+        # `inflight_requests.shutdown().await` completed - dropping the set only requests the abort, a request task in the middle
+        # of a poll (holding a clone of the user's service and of the connection) would outlive shutdown()
+        hco = cx.coroutine(f"{RH_}::InboundRequestHandler::start")
+        hsh = [c for c in hco.calls_to("tokio::task::join_set::JoinSet::shutdown") if not hco.is_cleanup(c.bb)]
+        if not hsh:
+            ob.refute_and_stop("request-tasks/awaited-at-handler-exit", "the connection handler never awaits JoinSet::shutdown() of its request tasks (dropping the set does not wait for them)", hco.path)
+        rets_ = hco.return_blocks()
+        ob.require(all(hco.all_paths_pass(0, [r_], [c.bb for c in hsh], succ=hco.succ_noawait) for r_ in rets_), "request-tasks/awaited-at-handler-exit",
+                   "a path on which the connection handler returns skips the shutdown of its request tasks", hco.path)
+        ho_ = Origins(hco)
+        sp_ = [c for c in hco.calls_to("tokio::task::join_set::JoinSet::spawn") if not hco.is_cleanup(c.bb)]
+        ob.require(len(sp_) >= 1 and all(strip_identity(ho_.of_operand(c.args[0])) == strip_identity(ho_.of_operand(hsh[0].args[0])) for c in sp_), "request-tasks/same-set",
+                   "the set that is shut down at handler exit is not the set the request tasks are spawned on", hco.path)
         ob.set_sample({"sites": sorted(f"{k.split('::')[-1]} in {o_}" for k, o_ in seen)})
 
     with cx.ob("C08.8", "R-SHAPE", "the bound UDP socket has a single owner, the QUIC endpoint (whose socket shutdown swaps out): no library type stores a socket handle and the socket is never duplicated") as ob:
